@@ -8,6 +8,7 @@ from .values import arith, compare, AND, SV, SC, SDyad
 class Q:
     __array_ufunc__ = None
     __array_priority__ = 2000
+    _is_matrix = True
 
     def __init__(self, m):
         self.m = np.asarray(m, dtype=object)
